@@ -97,6 +97,7 @@ def evaluate(case, obs):
     committed_ids = []
     aborted_ids = []
     illegal_after_legal = False
+    recovered = False           # an abort has completed after the abortable error: the producer is as good as new
     legal_seen = False
     ambiguous = 0
     err_applied = False
@@ -173,6 +174,9 @@ def evaluate(case, obs):
                 out.fail("order_enforced", "legal_call_raised_before_error:%s" % step, {"outcome": oc})
             elif state == "ABORTABLE" and step == "abort":
                 out.fail("abortable", "abort_failed_after_abortable_error", {"outcome": oc})
+            elif err_kind == "abortable" and recovered:
+                out.fail("abortable", "legal_call_raised_after_abort:%s_in_%s" % (step, state),
+                         {"seq": case.get("seq"), "outcome": oc, "fault": fault})
             continue
         if step == "begin":
             state = "IN_TXN"
@@ -186,6 +190,8 @@ def evaluate(case, obs):
         elif step == "abort":
             aborted_ids.extend(model_txn_sends)
             model_txn_sends = []
+            if err_applied and err_kind == "abortable":
+                recovered = True
             state = "READY"
         elif step in ("ctx_ok", "ctx_exc"):
             inner = [x["send_id"] for x in top if x["step"] == "send" and s["t_call"] <= x["t_call"] and
